@@ -481,6 +481,79 @@ def keyset_document_without_kids(ctx, rng):
             ctx.violation("keyset-export-loses-key", f"{len(out.value['keys'])} of {len(d['keys'])} keys exported", case)
 
 
+def keyset_history(ctx, rng):
+    """one KeySet object looked up again and again while its `keys` list is edited in place (rotation under way): every lookup reflects
+    the keys the set holds at that moment"""
+    j = J.load()
+    ctx.ev()
+    n = rng.randrange(1, 6)
+    mk = lambda i: {**(gen.new_oct(256) if rng.random() < 0.7 else gen.new_ec("P-256")), "kid": f"h{i}-{rng.randrange(10 ** 6)}"}
+    jwks = [mk(i) for i in range(n)]
+    alg_of = lambda jw: "HS256" if jw["kty"] == "oct" else "ES256"
+    tokens = {}   # kid -> (jwk, token)
+
+    def token_for(jw):
+        form = rng.choice(["compact", "flat"])
+        h = {"alg": alg_of(jw), "kid": jw["kid"]}
+        rk = RefKey.from_jwk(jw)
+        if form == "compact":
+            return rjws.compact(h, b"c14 history", rk)
+        return rjws.flattened(b"c14 history", rjws.json_signature(h, None, b"c14 history", rk))
+    for jw in jwks:
+        tokens[jw["kid"]] = (jw, token_for(jw))
+    pub = lambda jw: j.key(jw if jw["kty"] == "oct" else gen.public_jwk(jw))
+    ks = j.KeySet([pub(x) for x in jwks])
+    current = [x["kid"] for x in jwks]
+    history = ["new"]
+    counter = n
+    for step in range(rng.randrange(3, 8)):
+        via = rng.choice(["direct", "callable"])
+        arg = ks if via == "direct" else (lambda obj: ks)
+        for kid, (jw, tok) in list(tokens.items()):
+            o = consume(j, tok, arg, alg_of(jw))
+            ctx.count("history_lookups")
+            ctx.nontrivial(("hist", tuple(history), kid))
+            case = {"history": list(history), "kid": kid, "current_kids": list(current), "via": via}
+            if kid in current:
+                if not o.ok:
+                    ctx.violation(f"history:current-key-not-found:{o.etype}", f"after {history}, a token naming kid {kid!r} (held by the set) fails: {o.exc!r}", case)
+                elif o.value.payload != b"c14 history":
+                    ctx.violation("history:payload", "payload differs", case)
+            else:
+                if o.ok:
+                    ctx.violation("history:retired-key-still-used", f"after {history}, a token naming the retired kid {kid!r} still verifies although the set "
+                                  f"holds only {current}", case)
+                elif o.etype != "InvalidKeyIdError":
+                    ctx.violation(f"history:retired-kid-wrong-error:{o.etype}", f"after {history}, retired kid {kid!r} reported as {o.exc!r}", case)
+        # edit the set in place
+        edit = rng.choice(["replace", "replace", "remove+append", "append", "remove"])
+        if edit == "remove" and len(ks.keys) <= 1:
+            edit = "replace"
+        if edit in ("replace", "remove+append", "append"):
+            counter += 1
+            new = mk(counter)
+            tokens[new["kid"]] = (new, token_for(new))
+        if edit == "replace":
+            i = rng.randrange(len(ks.keys))
+            ks.keys[i] = pub(new)
+            current[i] = new["kid"]
+        elif edit == "remove+append":
+            i = rng.randrange(len(ks.keys))
+            del ks.keys[i]
+            del current[i]
+            ks.keys.append(pub(new))
+            current.append(new["kid"])
+        elif edit == "append":
+            ks.keys.append(pub(new))
+            current.append(new["kid"])
+        else:
+            i = rng.randrange(len(ks.keys))
+            del ks.keys[i]
+            del current[i]
+        history.append(edit)
+    ctx.count("keyset_histories")
+
+
 def run_shard(ctx):
     J.load()
     J.register_drafts()
@@ -498,6 +571,8 @@ def run_shard(ctx):
                 keyset_roundtrip(ctx, rng)
             if i % 3 == 0:
                 keyset_document_without_kids(ctx, rng)
+            if i % 3 == 1:
+                keyset_history(ctx, rng)
     finally:
         mon.close()
 
